@@ -301,6 +301,26 @@ func (se *symEval) constTableLookup(fi *FuncInfo, ix *ast.IndexExpr) (sval, bool
 	if _, _, isInt := se.width(elemT); !isInt {
 		return sval{}, false, false
 	}
+	tab := se.constTable(tv)
+	if tab == nil {
+		return sval{}, false, false
+	}
+	key := se.eval(fi, ix.Index)
+	if key.kind != 'i' || !key.t.isConst() {
+		return sval{}, false, false
+	}
+	if se.onIndex != nil {
+		if at, isArr := tv.Type().Underlying().(*types.Array); isArr {
+			se.onIndex(ix, key, int(at.Len()))
+		}
+	}
+	v, present := tab[key.t.k]
+	return se.intVal(tConst(v), elemT), present, true
+}
+
+// constTable: the contents of a package-level map / array / slice variable of the module that is initialised with a
+// composite literal of integer constants and never written (nil otherwise).
+func (se *symEval) constTable(tv *types.Var) map[uint64]uint64 {
 	if se.tables == nil {
 		se.tables = map[*types.Var]map[uint64]uint64{}
 	}
@@ -382,20 +402,7 @@ func (se *symEval) constTableLookup(fi *FuncInfo, ix *ast.IndexExpr) (sval, bool
 			}
 		}
 	}
-	if tab == nil {
-		return sval{}, false, false
-	}
-	key := se.eval(fi, ix.Index)
-	if key.kind != 'i' || !key.t.isConst() {
-		return sval{}, false, false
-	}
-	if se.onIndex != nil {
-		if at, isArr := tv.Type().Underlying().(*types.Array); isArr {
-			se.onIndex(ix, key, int(at.Len()))
-		}
-	}
-	v, present := tab[key.t.k]
-	return se.intVal(tConst(v), elemT), present, true
+	return tab
 }
 
 // seqLen: the number of elements of an array / array-backed slice / slice with a constant length; -1 if unknown.
@@ -1076,6 +1083,20 @@ func (se *symEval) eval(fi *FuncInfo, e ast.Expr) sval {
 		}
 		if v, ok := se.env[obj]; ok {
 			return v
+		}
+		// a package-level array of integer constants that nothing writes: its value
+		if tv, isVar := obj.(*types.Var); isVar && tv.Pkg() != nil && tv.Parent() == tv.Pkg().Scope() {
+			if at, isArr := tv.Type().Underlying().(*types.Array); isArr && at.Len() <= 80 {
+				if _, _, isInt := se.width(at.Elem()); isInt {
+					if tab := se.constTable(tv); tab != nil {
+						a := &arrVal{elemT: at.Elem()}
+						for i := int64(0); i < at.Len(); i++ {
+							a.elems = append(a.elems, se.intVal(tConst(tab[uint64(i)]), at.Elem()))
+						}
+						return sval{kind: 'a', arr: a, typ: tv.Type()}
+					}
+				}
+			}
 		}
 		se.fail(x, "value of "+x.Name+" is not tracked")
 		return sval{kind: 'u'}
